@@ -919,6 +919,14 @@ func checkHist(hc histCase) harness.Outcome {
 		}
 		out.Excluded = dedup(out.Excluded)
 	}
+	if semKind(c) == "map" && ownType(c).Key().PkgPath() != "" {
+		// a map with a named key type: on the unrepaired tree every keyed access panics, the container
+		// cannot even be viewed - the whole history is in the class
+		if ak := activeKnown([]string{m16.KNamedKey}); len(ak) > 0 {
+			out.Excluded = dedup(append(out.Excluded, ak...))
+			return out
+		}
+	}
 	r, died := exec(request{Kind: "hist", Cont: c, Steps: steps})
 	if died != "" {
 		out.Fail = fmt.Sprintf("history on %s %s: %s (steps: %s)", c.Kind, c.T, died, stepsText(steps))
